@@ -23,6 +23,7 @@ Inductive nev :=
 | NSendTo (hd : nat) (dst : saddr) (tag : N)
 | NSend (hd : nat) (tag : N)
 | NRaw (p : pkt)
+| NSetCursor (h : nat) (c : N)                         (* verif hook: move the port allocator's cursor *)
 | NEgress
 | NPump
 | NRecvAll.
@@ -158,6 +159,7 @@ Definition nstep (n : net) (e : nev) : net * obs :=
       | _ => (n, (9, 0, []))
       end
   | NRaw p => (mknet (fdeliver (n_hosts n) p) (n_handles n), (0, 0, []))
+  | NSetCursor h c => (with_host n h (set_cursor (kern_at n h) c), (0, 0, []))
   | NEgress => let '(hs, out) := fegress_all fuel (n_hosts n) in
                (mknet hs (n_handles n), (0, 0, map enc_pkt out))
   | NPump => let '(hs, out) := pump 20 (n_hosts n) in
@@ -170,3 +172,12 @@ Fixpoint nrun (n : net) (es : list nev) : list obs :=
 
 (* final flag: did any kernel leave the modelled fragment *)
 Definition nrun_enc (addrs : list (list ip)) (es : list nev) : list obs := nrun (net0 addrs) es.
+
+(* unit-level run of PortAllocator on a small range: every step gives the set of
+   ports in use; result 0 = None *)
+Fixpoint alloc_run (lo hi cur : N) (steps : list (list N)) : list N :=
+  match steps with
+  | [] => []
+  | used :: r => let '(res, c) := allocate lo hi cur (fun p => existsb (N.eqb p) used) in
+                 (match res with Some p => p | None => 0 end) :: alloc_run lo hi c r
+  end.
